@@ -295,6 +295,32 @@ for _p, _ms in {'C12': [M_ADVC3, B_ADVC_D7S, M_ADVC4], 'C13': [M_ADVS3U, B_ADVS_
     PROPS[_p]['models'] = list(PROPS[_p].get('models', [])) + _ms
 
 
+# ---- Layer-P closure (spec/GoatProtocolMC.tla): do the local rules compose to the end-to-end statements? ----
+def pmc(name, maxev, off='', invs='Paired StatusAgrees ClientPrefix ClientGotNothingWithoutHandler ServerPrefix EofIffOk',
+        expect=None, tiers=None):
+    cfg = ('SPECIFICATION MCSpec\nCONSTANTS\n  Off = {%s}\n  Pays = {"a", "b"}\n  MaxEv = %d\n  MaxMsg = 1\n'
+           'INVARIANTS %s\nCHECK_DEADLOCK FALSE\n' % (('"%s"' % off) if off else '', maxev, invs))
+    d = dict(name='GoatProtocolMC ' + name, spec='GoatProtocolMC.tla', cfg=cfg, workers=8, heap='8g', timeout=3000,
+             constants='one unary call and one bidi stream, payloads {a,b}, <=1 message each way, every explainable event '
+                       'sequence of length <= %d%s' % (maxev, ('; rule group %s switched off: the closure must break' % off) if off else ''))
+    if expect:
+        d['expect_violation'] = expect
+        d['exhaustive'] = False
+    if tiers:
+        d['tiers'] = tiers
+    return d
+
+
+P_Q = pmc('closure (<=12 events)', 12, tiers=['quick'])
+P_T = pmc('closure (<=15 events)', 15, tiers=['thorough'])
+P_NOPAY = pmc('with the payload rules off', 14, off='pay', expect='Invariant Paired is violated')
+P_NOSTATUS = pmc('with the status rules off', 14, off='status', expect='Invariant EofIffOk is violated')
+P_NOWIRE = pmc('with the wire rules off', 14, off='wire', expect='is violated')
+for _p, _ms in {'C01': [P_Q, P_NOPAY, P_T], 'C02': [P_Q, P_NOSTATUS, P_T], 'C03': [P_Q, P_NOSTATUS, P_T], 'C05': [P_Q, P_NOPAY],
+                'C06': [P_Q, P_NOWIRE]}.items():
+    PROPS[_p]['models'] = list(PROPS[_p].get('models', [])) + _ms
+
+
 # ---- C18 (demultiplexer) ---------------------------------------------------------
 def _demux_cfg(keys, env, writes, cancels, fixes, props, symmetry=True):
     inv = ['TypeOK', 'DeliveredOncePerKeyInOrder', 'AnnouncedOncePerIncarnation', 'WritesPassThrough', 'NoCrash']
